@@ -22,40 +22,69 @@ PROP = "C04"
 MOD = os.path.join(SPECS, "BeamSearch.tla")
 
 
-def wt(V, tv, path):
-    """BeamSearch!Wt as a list over v"""
-    from ..doubles.tablelm import code_of
+def ph(path):
+    """BeamSearch!PH"""
+    h = 0
+    for t in path:
+        h = h * 2 + int(t) + 1
+    return h
 
-    D = 4 if V == 2 else 6
-    if tv == 3:
-        return [D // V] * V
-    c = code_of(path, V)
+
+def base_w(V, q, path):
+    h = ph(path)
     if V == 2:
-        x = (c + tv) % 3
+        x = (h + q) % 3
         return [1 + x, 3 - x]
-    w0 = 1 + ((c + tv) % 3)
-    w1 = 1 + ((c * 2 + tv) % 2)
+    w0 = 1 + ((h + q) % 3)
+    w1 = 1 + ((h * 2 + len(path) + q) % 2)
     return [w0, w1, 6 - w0 - w1]
 
 
+def wt(V, tv, path):
+    """BeamSearch!Wt as a list over v (variants 4..6: product of two base tables = shallow fusion, beta = 1)"""
+    D = 4 if V == 2 else 6
+    if tv == 3:
+        return [D // V] * V
+    if tv <= 2:
+        return base_w(V, tv, path)
+    a, b = base_w(V, tv - 4, path), base_w(V, (tv - 3) % 3, path)
+    return [x * y for x, y in zip(a, b)]
+
+
 def make_lm(V, tvs, maxlen):
+    """-> (language model, initial state for a batch of len(tvs) elements)"""
+    from pydrobert.torch.modules import ExtractableShallowFusionLanguageModel
+
     from ..doubles.tablelm import TableLM, code_of
 
-    tables = []
-    for tv in tvs:
-        tab = {}
-        for n in range(maxlen + 1):
-            for y in itertools.product(range(V), repeat=n):
-                tab[code_of(y, V)] = [float(w) for w in wt(V, tv, y)]
-        tables.append(tab)
-    return TableLM(V, tables, strict=True)
+    def table_lm(qs):
+        tables = []
+        for q in qs:
+            tab = {}
+            for n in range(maxlen + 1):
+                for y in itertools.product(range(V), repeat=n):
+                    tab[code_of(y, V)] = [float(w) for w in (wt(V, q, y) if q == 3 else base_w(V, q, y))]
+            tables.append(tab)
+        return TableLM(V, tables, strict=True)
+
+    N = len(tvs)
+    if all(tv >= 4 for tv in tvs):
+        first = table_lm([tv - 4 for tv in tvs])
+        second = table_lm([(tv - 3) % 3 for tv in tvs])
+        lm = ExtractableShallowFusionLanguageModel(first, second, 1.0, "a.", "b.")
+        return lm, {"a.elem": torch.arange(N), "b.elem": torch.arange(N)}
+    assert all(tv < 4 for tv in tvs)
+    return table_lm(tvs), {"elem": torch.arange(N)}
 
 
 def chain_num(V, tv, path):
-    num = 1
+    """-> (numerator, denominator) of the chained probability under the search's own normalisation"""
+    num, den = 1, 1
     for i, tok in enumerate(path):
-        num *= wt(V, tv, path[:i])[tok]
-    return num
+        w = wt(V, tv, path[:i])
+        num *= w[tok]
+        den *= sum(w)
+    return num, den
 
 
 def judge(ctx, key, accepted, y, y_lens, lp, tag, call_case):
@@ -100,10 +129,10 @@ def judge(ctx, key, accepted, y, y_lens, lp, tag, call_case):
             bad("duplicate", "path %r appears twice with a finite score" % (path,))
             return
         # reported score = chained score of exactly these tokens (as an exact numerator)
-        num = math.exp(lps[k]) * D ** n
-        want = chain_num(V, tv, path)
+        want, den = chain_num(V, tv, path)
+        num = math.exp(lps[k]) * den
         if abs(num - want) > 1e-6 * want:
-            bad("score", "path %r reported log-prob %r = %.6f/%d^%d, the model's chained score is %d/%d^%d" % (path, lps[k], num, D, n, want, D, n))
+            bad("score", "path %r reported log-prob %r = %.6f/%d, the model's chained score is %d/%d" % (path, lps[k], num, den, want, den))
             return
         got[path] = want
     for beam in accepted:
@@ -119,15 +148,15 @@ def run_call(ctx, cases, keys, tag, batched=True):
 
     V, _, eos, fa, mi, width = keys[0]
     N = len(keys)
-    lm = make_lm(V, [k[1] for k in keys], mi)
+    lm, init = make_lm(V, [k[1] for k in keys], mi)
     pad = ctx.rng.choice((-1, -5, 0))
     call_case = dict(V=V, tvs=[k[1] for k in keys], eos=eos, finish_all=fa, max_iters=mi, width=width, batched=batched, pad_value=pad)
     try:
         bs = BeamSearch(lm, width, None if eos < 0 else (eos if ctx.rng.random() < 0.7 else eos - V), fa, pad)
         if batched:
-            y, y_lens, lp = bs({"elem": torch.arange(N)}, N, mi)
+            y, y_lens, lp = bs(init, N, mi)
         else:
-            y, y_lens, lp = bs({"elem": torch.zeros(1, dtype=torch.long)}, None, mi)
+            y, y_lens, lp = bs(init, None, mi)
             y, y_lens, lp = y.unsqueeze(1), y_lens.unsqueeze(0), lp.unsqueeze(0)
     except Exception as ex:
         ctx.violation(dict(site="BeamSearch", kind="exception", batch=tag), "raised %r" % ex, dict(call=call_case))
@@ -149,14 +178,14 @@ def run(ctx):
                         "the language model's scores depend on the whole path through threaded state (TableLM)"]
     cases = {}
     steps = {}
-    for cfg in (("BeamSearch_quick.cfg" if ctx.quick else "BeamSearch_thorough.cfg"), "BeamSearch_ties.cfg"):
+    for cfg in (("BeamSearch_quick.cfg" if ctx.quick else "BeamSearch_thorough.cfg"), "BeamSearch_ties.cfg", "BeamSearch_fused.cfg"):
         res = tlc.run(MOD, os.path.join(SPECS, cfg), workers=16, timeout=3000)
         tlc.require_ok(res, "BeamSearch/" + cfg)
         tlc.require_covered(res, ["Extend", "Stop"], "BeamSearch/" + cfg)
         ctx.add_tlc("BeamSearch/" + cfg, res)
         for r in res.records:
             if r.get("kind") == "step":
-                skey = (r["V"], r["tv"], r["eos"], r["width"], r["t"], tuple(sorted((tuple(e["y"]), e["num"]) for e in r["prev"])))
+                skey = (r["V"], r["tv"], r["eos"], r["width"], r["t"], tuple(sorted((tuple(e["y"]), e["num"], e["den"]) for e in r["prev"])))
                 steps.setdefault(skey, []).append(r)
                 continue
             key = (r["V"], r["tv"], r["eos"], bool(r["fa"]), r["mi"], r["width"])
@@ -166,7 +195,7 @@ def run(ctx):
     ctx.exhaustive = True
     groups = {}
     for k in sorted(cases):
-        groups.setdefault((k[0], k[2], k[3], k[4], k[5]), []).append(k)
+        groups.setdefault((k[0], k[2], k[3], k[4], k[5], k[1] >= 4), []).append(k)
         nt = k[4] >= 2 and (k[2] >= 0 or k[5] < k[0] ** k[4])
         ctx.case(key=k, nontrivial=nt, n=1,
                  sample=dict(V=k[0], table_variant=k[1], eos=k[2], finish_all=k[3], max_iters=k[4], width=k[5],
@@ -203,27 +232,27 @@ def replay_steps(ctx, steps):
         prev = list(prev)
         ctx.rng.shuffle(prev)
         Kp = len(prev)
-        S = max(len(p) for p, _ in prev)
-        use_lens = eos >= 0 or any(len(p) != S for p, _ in prev) or ctx.rng.random() < 0.5
+        S = max(len(p) for p, _, _ in prev)
+        use_lens = eos >= 0 or any(len(p) != S for p, _, _ in prev) or ctx.rng.random() < 0.5
         y_prev = torch.zeros(S, 1, Kp, dtype=torch.long)
         lens = torch.zeros(1, Kp, dtype=torch.long)
         lp_prev = torch.zeros(1, Kp, dtype=torch.double)
         lp_t = torch.zeros(1, Kp, V, dtype=torch.double)
-        for k, (p, num) in enumerate(prev):
+        for k, (p, num, den) in enumerate(prev):
             for i, tok in enumerate(p):
                 y_prev[i, 0, k] = tok
             for i in range(len(p), S):
                 y_prev[i, 0, k] = ctx.rng.randrange(V)  # garbage beyond the path's length
             lens[0, k] = len(p)
-            lp_prev[0, k] = math.log(num) - len(p) * math.log(D)
+            lp_prev[0, k] = math.log(num) - math.log(den)
             fin = eos >= 0 and len(p) > 0 and p[-1] == eos
             w = wt(V, tv, p)
             for v in range(V):
                 if fin:
                     lp_t[0, k, v] = 0.0 if v == eos else -math.inf
                 else:
-                    lp_t[0, k, v] = math.log(w[v]) - math.log(D)
-        case = dict(step=dict(V=V, tv=tv, eos=eos, width=width, t=t, prev=[[list(p), n] for p, n in prev], use_lens=use_lens))
+                    lp_t[0, k, v] = math.log(w[v]) - math.log(sum(w))
+        case = dict(step=dict(V=V, tv=tv, eos=eos, width=width, t=t, prev=[[list(p), n, d_] for p, n, d_ in prev], use_lens=use_lens))
         try:
             y, y_lens, lp, src = F.beam_search_advance(lp_t, width, lp_prev, y_prev, lens if use_lens else None)
         except Exception as ex:
@@ -238,7 +267,7 @@ def replay_steps(ctx, steps):
             if lps[k] == -math.inf:
                 continue
             s_ = int(src[0, k])
-            p, num = prev[s_]
+            p, num, _den = prev[s_]
             fin = eos >= 0 and len(p) > 0 and p[-1] == eos
             n = int(y_lens[0, k])
             path = tuple(y[:n, 0, k].tolist())
@@ -248,7 +277,7 @@ def replay_steps(ctx, steps):
                 ok = False
                 break
             key_ = p if fin else path
-            val = math.exp(lps[k]) * D ** len(key_)
+            val = math.exp(lps[k]) * chain_num(V, tv, key_)[1]
             if key_ in got:
                 ctx.violation(dict(site="beam_search_advance", kind="duplicate"), "candidate %r selected twice" % (key_,), case)
                 ok = False
@@ -276,13 +305,13 @@ def replay(ctx, case):
         print("single-step case; re-run the check to reproduce:", case["step"])
         return
     c = case["call"]
-    lm = make_lm(c["V"], c["tvs"], c["max_iters"])
+    lm, init = make_lm(c["V"], c["tvs"], c["max_iters"])
     bs = BeamSearch(lm, c["width"], None if c["eos"] < 0 else c["eos"], c["finish_all"], c["pad_value"])
     N = len(c["tvs"])
     if c["batched"]:
-        y, y_lens, lp = bs({"elem": torch.arange(N)}, N, c["max_iters"])
+        y, y_lens, lp = bs(init, N, c["max_iters"])
     else:
-        y, y_lens, lp = bs({"elem": torch.tensor([0])}, None, c["max_iters"])
+        y, y_lens, lp = bs(init, None, c["max_iters"])
         y, y_lens, lp = y.unsqueeze(1), y_lens.unsqueeze(0), lp.unsqueeze(0)
     print("replay: log_probs", lp.tolist(), "lens", y_lens.tolist())
     if "key" not in case:
